@@ -165,6 +165,15 @@ func main() {
 		for _, l := range extractLockTable(repo) {
 			fmt.Println("locks", l.Name, l.Seq)
 		}
+	case "conctab":
+		// regenerate coq/Gen/ConcTab.v: the lock table of /repo as a Coq constant (translator half of
+		// the tie: Props/C03.v re-proves the static discipline on it and its equality with the table
+		// the sections were compiled from)
+		fs := flag.NewFlagSet("conctab", flag.ExitOnError)
+		repo := fs.String("repo", "/repo", "afero source tree")
+		out := fs.String("out", "", "output .v file")
+		fs.Parse(os.Args[2:])
+		writeConcTab(*repo, *out)
 	case "minimize":
 		minimizeMain(os.Args[2:])
 	default:
